@@ -38,7 +38,10 @@ func genE2ETail(r *rand.Rand) e2eCase {
 		ts = append(ts, t)
 	}
 	c.Triples = tripleStrings(ts)
-	st := newGraph(ctx, "?g", ts)
+	st, from := newGraph(ctx, "?g", ts), "?g"
+	if r.Intn(4) == 0 {
+		st, from, c.Graphs = splitGraphs(ctx, r, ts)
+	}
 	ex := tailExtra{}
 	var outs []string
 	where, baseSel := `{?s "w"@[] ?x}`, "?s, ?x"
@@ -93,7 +96,7 @@ func genE2ETail(r *rand.Rand) e2eCase {
 			ex.Projs[1].Alias = "?val"
 		case 1:
 			ex.Projs = []jproj{{Bind: "?x", Alias: "?val"}, {Bind: "?s", Alias: "?x"}} // the alias ?x shadows the binding ?x
-			if r.Intn(2) == 0 { // ... and is assigned BEFORE the shadowed binding is projected
+			if r.Intn(2) == 0 {                                                        // ... and is assigned BEFORE the shadowed binding is projected
 				ex.Projs = []jproj{{Bind: "?s", Alias: "?x"}, {Bind: "?x", Alias: "?val"}}
 			}
 		}
@@ -107,7 +110,7 @@ func genE2ETail(r *rand.Rand) e2eCase {
 			outs = append(outs, p.Bind)
 		}
 	}
-	q := "SELECT " + strings.Join(ps, ", ") + " FROM ?g WHERE " + where
+	q := "SELECT " + strings.Join(ps, ", ") + " FROM " + from + " WHERE " + where
 	if len(ex.GroupBy) > 0 {
 		q += " GROUP BY " + strings.Join(ex.GroupBy, ", ")
 	}
@@ -175,7 +178,7 @@ func genE2ETail(r *rand.Rand) e2eCase {
 		q += fmt.Sprintf(` LIMIT "%d"^^type:int64`, l)
 	}
 	c.Q = q + ";"
-	c.BaseQ = "SELECT " + baseSel + " FROM ?g WHERE " + where + ";"
+	c.BaseQ = "SELECT " + baseSel + " FROM " + from + " WHERE " + where + ";"
 	c.Extra = ex
 	c.Base, _ = runQuery(ctx, st, c.BaseQ)
 	c.Res, _ = runQuery(ctx, st, c.Q)
